@@ -99,6 +99,22 @@ pub fn halfway(x: f64) -> Option<[String; 3]> {
     Some(around(&mid))
 }
 
+/// the halfway point with a deviation only beyond the 768 significant digits a bounded decimal
+/// buffer keeps: `exact` followed by zeros and a final 1 (just above), and the just-below spelling
+/// carried on with 9s
+pub fn halfway_far(x: f64, total: usize) -> Option<[String; 2]> {
+    let [below, exact, _] = halfway(x)?;
+    let sig = |s: &str| s.bytes().filter(|c| c.is_ascii_digit()).skip_while(|c| *c == b'0').count();
+    let mut above = if exact.contains('.') { exact.clone() } else { format!("{}.", exact) };
+    let n = sig(&above);
+    above.push_str(&"0".repeat(total.saturating_sub(n + 1)));
+    above.push('1');
+    let mut b = below;
+    let n = sig(&b);
+    b.push_str(&"9".repeat(total.saturating_sub(n)));
+    Some([b, above])
+}
+
 fn around(mid: &(Vec<u8>, Vec<u8>)) -> [String; 3] {
     let exact = render(mid);
     // just above: append a 1 far behind
@@ -189,6 +205,72 @@ pub fn random_f64_bits(r: &mut Rng) -> f64 {
     }
 }
 
+/// k-digit mantissas around the largest finite double (and around the rounding threshold to
+/// infinity) with the matching exponent: `17976931348623157e292`, `2000000000000000000e290`, ...
+/// in integer, fraction and exponent spellings
+pub fn overflow_boundary(r: &mut Rng) -> String {
+    let (ip, _) = exact_dec(f64::MAX);
+    let maxd: String = ip.iter().map(|d| (b'0' + d) as char).collect(); // 309 digits
+    let k = match r.below(4) {
+        0 => r.range(1, 22),
+        1 => r.range(15, 21),
+        2 => 19,
+        _ => r.range(1, 60),
+    }
+    .min(maxd.len());
+    let mut m: Vec<u8> = match r.below(6) {
+        0 => vec![b'9'; k],
+        1 => {
+            let mut v = vec![b'0'; k];
+            v[0] = b'2';
+            v
+        }
+        2 => {
+            let mut v = vec![b'0'; k];
+            v[0] = b'1';
+            if k > 1 {
+                v[1] = b'8';
+            }
+            v
+        }
+        _ => maxd.as_bytes()[..k].to_vec(),
+    };
+    // +-1..2 in the last place (with carry)
+    let delta = r.below(5) as i32 - 2;
+    let mut carry = delta;
+    for i in (0..m.len()).rev() {
+        if carry == 0 {
+            break;
+        }
+        let d = (m[i] - b'0') as i32 + carry;
+        if d > 9 {
+            m[i] = b'0' + (d - 10) as u8;
+            carry = 1;
+        } else if d < 0 {
+            m[i] = b'0' + (d + 10) as u8;
+            carry = -1;
+        } else {
+            m[i] = b'0' + d as u8;
+            carry = 0;
+        }
+    }
+    if m[0] == b'0' {
+        m[0] = b'1';
+    }
+    let e = 309 - k as i64 + (r.below(3) as i64 - 1) * (r.chance(1, 3) as i64);
+    let ms = String::from_utf8(m).unwrap();
+    let sign = if r.chance(1, 4) { "-" } else { "" };
+    match r.below(4) {
+        0 if k > 1 => {
+            let j = r.range(1, k - 1).max(1);
+            format!("{}{}.{}e{}", sign, &ms[..j], &ms[j..], e + (k - j) as i64)
+        }
+        1 => format!("{}{}E+{}", sign, ms, e),
+        2 if e >= 0 && e < 330 => format!("{}{}{}", sign, ms, "0".repeat(e as usize)),
+        _ => format!("{}{}e{}", sign, ms, e),
+    }
+}
+
 /// assorted hostile literals (valid and invalid)
 pub fn hostile(r: &mut Rng) -> String {
     let digits = |r: &mut Rng, lo: usize, hi: usize| -> String {
@@ -196,7 +278,8 @@ pub fn hostile(r: &mut Rng) -> String {
         (0..n).map(|_| (b'0' + r.below(10) as u8) as char).collect()
     };
     let nz = |r: &mut Rng| (b'1' + r.below(9) as u8) as char;
-    match r.below(22) {
+    match r.below(24) {
+        22 | 23 => overflow_boundary(r),
         0 => format!("{}{}", nz(r), digits(r, 0, 800)),
         1 => format!("0.{}{}", "0".repeat(r.range(0, 400)), digits(r, 1, 30)),
         2 => format!("{}e{}", r.below(1000), r.below(800) as i64 - 400),
